@@ -330,3 +330,67 @@ Proof.
   change (RetDeq t None :: l1 ++ EmptyAt t :: l2) with ((RetDeq t None :: l1) ++ EmptyAt t :: l2) in R1.
   destruct (replay_suffix _ _ _ R1) as [q2 R2]. apply replay_emptyat in R2. tauto.
 Qed.
+
+(* An Enqueue of a thread that is idle again (or in a later call) has been linearized. *)
+Theorem log_enq_linked : forall log l4 t a va l3,
+  (forall t, tphase t log <> PBad) -> log = l4 ++ CallEnq t a va :: l3 ->
+  tphase t log <> PEnqCalled a va -> In (LinEnq t a va) l4.
+Proof. intros log l4 t a va l3 P -> H. eapply enq_linked_between; eauto. Qed.
+
+(* Per-producer FIFO: if one thread called Enqueue(a) before Enqueue(b) and b
+   has been dequeued, then a was dequeued before b. *)
+Theorem log_producer_fifo : forall log t a va b vb l3 l4 l5 n1 n2 tb wb,
+  linearizable_log log -> NoDup (call_ids log) -> NoDup (map fst (enqs log)) ->
+  log = l5 ++ CallEnq t b vb :: l4 ++ CallEnq t a va :: l3 ->
+  log = n1 ++ LinDeq tb b wb :: n2 ->
+  exists ta n3 n4, n2 = n3 ++ LinDeq ta a va :: n4.
+Proof.
+  intros log t a va b vb l3 l4 l5 n1 n2 tb wb [[q R] P] NC NE E1 E2.
+  (* 1. a was linked between the two invocations *)
+  assert (La : In (LinEnq t a va) l4).
+  { pose proof (P t) as Pt. rewrite E1 in Pt. apply tphase_suffix_ok in Pt.
+    assert (Pidle : tphase t (l4 ++ CallEnq t a va :: l3) = PIdle).
+    { cbn in Pt. rewrite Nat.eqb_refl in Pt. eapply phase_call_enq; eauto. }
+    eapply enq_linked_between; rewrite Pidle; discriminate. }
+  (* 2. b was linked after its invocation *)
+  assert (Db : In (b, wb) (deqs log)). { rewrite E2. eapply lindeq_in_deqs. apply in_or_app. right. left. reflexivity. }
+  pose proof (replay_fifo _ _ R) as F.
+  assert (Eb : In (b, wb) (enqs log)). { rewrite F. apply in_or_app. left. exact Db. }
+  set (olderb := l4 ++ CallEnq t a va :: l3) in *.
+  assert (Eb5 : In (b, wb) (enqs l5)).
+  { rewrite E1 in Eb. rewrite enqs_app in Eb. cbn [enqs] in Eb. apply in_app_or in Eb. destruct Eb as [Eb|Eb]; [|exact Eb].
+    exfalso. destruct (in_enqs _ _ _ Eb) as [t'' Hl]. apply in_split in Hl. destruct Hl as [p1 [p2 Ep]].
+    assert (P2 : tphase t'' (LinEnq t'' b wb :: p2) <> PBad).
+    { specialize (P t''). rewrite E1 in P. apply (tphase_suffix_ok t'' l5) in P.
+      apply (tphase_suffix_ok t'' [CallEnq t b vb]) in P. rewrite Ep in P.
+      apply (tphase_suffix_ok t'' p1) in P. exact P. }
+    cbn in P2. rewrite Nat.eqb_refl in P2. apply phase_lin_enq in P2. apply tphase_called_in in P2.
+    assert (In b (call_ids olderb)).
+    { rewrite Ep. rewrite call_ids_app. apply in_or_app. left. cbn [call_ids]. eapply in_call_ids; eauto. }
+    rewrite E1, call_ids_app in NC. cbn [call_ids] in NC.
+    rewrite <- app_assoc in NC. apply NoDup_remove_2 in NC. apply NC. apply in_or_app. left. exact H. }
+  (* 3. a precedes b in enqs, hence in deqs *)
+  assert (Ea4 : In (a, va) (enqs l4)) by (eapply linenq_in_enqs; eauto).
+  apply in_split in Ea4. destruct Ea4 as [e1 [e2 Ee4]].
+  apply in_split in Eb5. destruct Eb5 as [f1 [f2 Ef5]].
+  assert (EN : enqs log = (enqs l3 ++ e1 ++ (a, va) :: e2 ++ f1) ++ (b, wb) :: f2).
+  { rewrite E1, enqs_app. cbn [enqs]. unfold olderb. rewrite enqs_app. cbn [enqs]. rewrite Ee4, Ef5.
+    repeat rewrite <- app_assoc. cbn. repeat rewrite <- app_assoc. reflexivity. }
+  assert (NEi : NoDup (deqs log ++ q)). { rewrite <- F. eapply NoDup_map_inv; eauto. }
+  destruct (prefix_order _ _ _ _ _ _ NEi (eq_trans (eq_sym F) EN) Db) as [l3' ED].
+  (* 4. locate b in deqs through its position in the log *)
+  assert (ED2 : deqs log = deqs n2 ++ (b, wb) :: deqs n1).
+  { rewrite E2, deqs_app. cbn [deqs]. rewrite <- app_assoc. reflexivity. }
+  assert (ND : NoDup (deqs log)) by (eapply nodup_app_l; eauto).
+  assert (deqs n2 = enqs l3 ++ e1 ++ (a, va) :: e2 ++ f1).
+  { apply (app_unique _ (deqs n2) (deqs n1) _ l3' (b, wb)).
+    - pose proof ND as ND'. rewrite ED2 in ND'. exact ND'.
+    - exact (eq_trans (eq_sym ED2) ED). }
+  assert (Da : In (a, va) (deqs n2)).
+  { rewrite H. apply in_or_app. right. apply in_or_app. right. left. reflexivity. }
+  destruct (in_deqs _ _ _ Da) as [ta Hl]. apply in_split in Hl. destruct Hl as [n3 [n4 ->]]. eauto.
+Qed.
+
+(* Drained: when the abstract queue is empty, exactly the linked items have been dequeued, in order. *)
+Theorem log_drained : forall log, replay log = Some [] -> deqs log = enqs log.
+Proof. intros log R. pose proof (replay_fifo _ _ R) as F. rewrite app_nil_r in F. auto. Qed.
